@@ -148,3 +148,28 @@ func evmOut(data []byte, count bool) (out fx.M, err error) {
 	out["paths"] = flat(reflect.ValueOf(vals[3]))
 	return out, nil
 }
+
+// evmOutMulti decodes the EVM bytes of a MultiProof (abi.decode(data, (bytes, bytes[]))): one `out`-shaped object per item
+func evmOutMulti(data []byte) (outs []fx.M, err error) {
+	defer func() {
+		if r := recover(); r != nil {
+			outs, err = nil, fmt.Errorf("evm decode: %v", r)
+		}
+	}()
+	outer, err := abi.Arguments{{Type: plainT("bytes")}, {Type: plainT("bytes[]")}}.Unpack(data)
+	if err != nil {
+		return nil, err
+	}
+	for _, item := range outer[1].([][]byte) {
+		single, err := outerArgs.Pack(outer[0].([]byte), item)
+		if err != nil {
+			return nil, err
+		}
+		o, err := evmOut(single, false)
+		if err != nil {
+			return nil, err
+		}
+		outs = append(outs, o)
+	}
+	return outs, nil
+}
